@@ -5,7 +5,7 @@
 #include <gmssl/tls.h>
 #ifdef VERIF_CBMC
 #define PTR_IN(lo, p, hi)      __CPROVER_pointer_in_range_dfcc((lo), (p), (hi))
-#define WIN_REQ(in, inlen)  (WR_OK(in, sizeof(*(in))) && WR_OK(inlen, sizeof(*(inlen))) && *(inlen) <= (size_t)1 << 24 && RD_OK(*(in), *(inlen)))
+#define WIN_REQ(in, inlen)  (WR_OK(in, sizeof(*(in))) && WR_OK(inlen, sizeof(*(inlen))) && *(inlen) <= (size_t)1 << 24 && (*(inlen) == 0 || RD_OK(*(in), *(inlen))))
 #define WIN_ADV(in, inlen, k) (*(inlen) == OLD(*(inlen)) - (k) && PTR_IN(OLD(*(in)), *(in), OLD(*(in)) + OLD(*(inlen))) && *(in) == OLD(*(in)) + (k))
 #define BE_AT(p, i)  ((uint32_t)(p)[i])
 #endif
